@@ -271,6 +271,19 @@ const TEMPLATES: &[&[(&str, &[&str])]] = &[
     &[("S", &["a A b", "a B c"]), ("A", &[""]), ("B", &[""])],
     // 19 state with permuted kernel order candidates
     &[("S", &["a A", "b B"]), ("A", &["c d", "c e"]), ("B", &["c e", "c d"])],
+    // 20 two closure paths of different length to a nullable bottom behind unit chains, plus a
+    //    second context that merges into the same states (late lookahead propagation)
+    &[
+        ("S", &["B a", "C", "c F b"]),
+        ("C", &["D"]),
+        ("D", &["E"]),
+        ("E", &["B b"]),
+        ("B", &["F"]),
+        ("F", &["G"]),
+        ("G", &["d", ""]),
+    ],
+    // 21 self-loop state whose kernel item gets a lookahead only over the loop
+    &[("S", &["A e", "a a A b b"]), ("A", &["B", "C"]), ("B", &["c D"]), ("C", &["c E d"]), ("E", &["D", "e"]), ("D", &["e E"])],
 ];
 
 fn build_template(raw: &RawG, pool: &[TermSpec]) -> GrammarSpec {
